@@ -120,40 +120,42 @@ def check_fpsize(res, facts):
         rule.bad("ark_ff|Fp", "anchor missing: %s" % sorted(fns))
         return
     size = fns["serialized_size_with_flags"]
+    from rules.c07 import E, show
 
-    def size_expr_ok(fn):
-        """buffer_byte_size(MODULUS_BIT_SIZE + BIT_SIZE)"""
-        dep = DF.Dep(fn)
-        for bb, t in fn.calls():
-            if t["f"].get("name") == "buffer_byte_size" and t["args"]:
-                l = op_local(t["args"][0])
-                names = set()
-                for k in dep.consts_in_slice([l]) if l is not None else []:
-                    names.add((k.get("def") or "").rsplit("::", 1)[-1])
-                adds = [s for bi, si, s in fn.stmts() if s.get("r", {}).get("k") == "bin" and s["r"]["op"].startswith("Add") and place_parts(s["d"])[0] in dep.slice([l])]
-                return {"MODULUS_BIT_SIZE", "BIT_SIZE"} <= names and bool(adds), names
-        return False, set()
-    ok, names = size_expr_ok(size)
-    (rule.ok if ok else rule.bad)("ark_ff|Fp::serialized_size_with_flags", "buffer_byte_size(MODULUS_BIT_SIZE + F::BIT_SIZE) (constants: %s)" % sorted(names), size.loc)
+    SIZES = [("call", "buffer_byte_size", (("bin", "Add", x, y),)) for x, y in (("MODULUS_BIT_SIZE", "BIT_SIZE"), ("BIT_SIZE", "MODULUS_BIT_SIZE"))]
+
+    def strip(t):
+        """the size function applied to any receiver stands for its own return expression"""
+        if isinstance(t, tuple):
+            if t and t[0] == "call" and t[1] == "serialized_size_with_flags" and len(t) == 3:
+                return strip(E(size, {"c": 0}))
+            return tuple(strip(x) for x in t)
+        return t
+
+    def is_size(t):
+        return strip(t) in SIZES
+
+    def is_last(t):
+        t = strip(t)
+        return isinstance(t, tuple) and t[0] == "bin" and t[1] == "Sub" and t[2] in SIZES and t[3] == 1
+    ret = E(size, {"c": 0})
+    ok = is_size(ret)
+    (rule.ok if ok else rule.bad)("ark_ff|Fp::serialized_size_with_flags", "returns %s; the advertised size is buffer_byte_size(MODULUS_BIT_SIZE + F::BIT_SIZE)" % show(ret), size.loc)
     # writer
     w = fns["serialize_with_flags"]
-    okw, nw = size_expr_ok(w)
-    depw = DF.Dep(w)
-    bsz = [place_parts(t["d"])[0] for bb, t in w.calls() if t["f"].get("name") == "buffer_byte_size"]
-    wr = [t for bb, t in w.calls() if t["f"].get("name") in ("write_up_to", "write_all")]
+    wr = [t for bb, t in w.calls() if t["f"].get("name") in ("write_up_to", "write_all", "write")]
     idx = [t for bb, t in w.calls() if t["f"].get("name") == "index_mut"]
-    same_len = bool(bsz) and all(op_local(t["args"][-1]) is not None and bsz[0] in depw.slice([op_local(t["args"][-1])]) for t in wr) and bool(wr)
-    flag_idx = bool(idx) and all(op_local(t["args"][1]) is not None and bsz[0] in depw.slice([op_local(t["args"][1])]) and any(s.get("r", {}).get("k") == "bin" and s["r"]["op"].startswith("Sub") and place_parts(s["d"])[0] in depw.slice([op_local(t["args"][1])]) for _, _, s in w.stmts()) for t in idx)
+    same_len = bool(wr) and all(t["f"].get("name") == "write_up_to" and is_size(E(w, t["args"][-1])) for t in wr)
+    flag_idx = bool(idx) and all(is_last(E(w, t["args"][1])) for t in idx)
     mask = any(t["f"].get("name") == "u8_bitmask" for _, t in w.calls())
-    (rule.ok if okw and same_len and flag_idx and mask else rule.bad)("ark_ff|Fp::serialize_with_flags", "writes size bytes, ORs u8_bitmask into byte size-1 (size expr ok=%s, length ok=%s, index ok=%s)" % (okw, same_len, flag_idx), w.loc)
+    (rule.ok if same_len and flag_idx and mask else rule.bad)("ark_ff|Fp::serialize_with_flags", "writes size bytes, ORs u8_bitmask into byte size-1 (length ok=%s [%s], index ok=%s [%s], mask=%s)" % (same_len, [show(E(w, t["args"][-1])) for t in wr], flag_idx, [show(E(w, t["args"][1])) for t in idx], mask), w.loc)
     # reader
     r = fns["deserialize_with_flags"]
     depr = DF.Dep(r)
-    szc = [place_parts(t["d"])[0] for bb, t in r.calls() if t["f"].get("name") in ("serialized_size_with_flags", "buffer_byte_size")]
-    rd = [t for bb, t in r.calls() if t["f"].get("name") in ("read_exact_up_to", "read_exact")]
+    rd = [t for bb, t in r.calls() if t["f"].get("name") in ("read_exact_up_to", "read_exact", "read")]
     idx = [t for bb, t in r.calls() if t["f"].get("name") == "index_mut"]
-    same_len = bool(szc) and bool(rd) and all(op_local(t["args"][-1]) is not None and szc[0] in depr.slice([op_local(t["args"][-1])]) for t in rd)
-    flag_idx = bool(idx) and all(op_local(t["args"][1]) is not None and szc[0] in depr.slice([op_local(t["args"][1])]) and any(s.get("r", {}).get("k") == "bin" and s["r"]["op"].startswith("Sub") and place_parts(s["d"])[0] in depr.slice([op_local(t["args"][1])]) for _, _, s in r.stmts()) for t in idx)
+    same_len = bool(rd) and all(t["f"].get("name") == "read_exact_up_to" and is_size(E(r, t["args"][-1])) for t in rd)
+    flag_idx = bool(idx) and all(is_last(E(r, t["args"][1])) for t in idx)
     rem = any(t["f"].get("name") == "from_u8_remove_flags" for _, t in r.calls())
     # uniqueness: the integer handed to the range check is the buffer content with only the flag bits removed --
     # no further masking / shifting of the decoded integer (that would silently accept stray high bits)
@@ -322,7 +324,7 @@ def check_sign(res, facts):
             def oracle(st, bb, t, flagval=flagval):
                 n = t["f"].get("name")
                 if n == flagfn:
-                    return 1 if model == "SW" else flagval      # SW: Option<bool> -> Some
+                    return PS.Adt(1, [flagval]) if model == "SW" else flagval      # SW: Option<bool> -> Some(flag)
                 if n == "unwrap" and model == "SW":
                     return flagval
                 if n == "branch":
@@ -509,7 +511,8 @@ def check_trio_points(res, facts):
             s = point_sequence(fns["serialized_size"], comp)
             key = "ark_ec|%s|%s" % (trait, cname)
             # the writer has two arms (infinity / finite) with the same sequence; all sets must be the same singleton
-            if len(w) == 1 and w == r == s:
+            # (the size is a sum: its sub-encodings are compared as a multiset, the writer's and reader's in order)
+            if len(w) == 1 and w == r and {tuple(sorted(x)) for x in s} == {tuple(sorted(x)) for x in w} and len(s) == 1:
                 rule.ok(key, "sequence %s" % list(next(iter(w))), fns["serialize_with_mode"].loc)
             else:
                 rule.bad(key, "writer %s / reader %s / size %s sub-encoding sequences differ: bytes written, bytes read and the advertised size disagree" % (sorted(w), sorted(r), sorted(s)), fns["serialize_with_mode"].loc)
